@@ -24,9 +24,6 @@ ASSUMED_CONTRACTS = {
 }
 
 NOT_APPLICABLE = {
-    "C11": "not reached in the time available: BGPsec validation needs OpenSSL replaced by environment contracts and bounded units over "
-           "rtr_bgpsec_validate_as_path; nothing is built for it (DESIGN.md section 4)",
-    "C12": "not reached in the time available: as C11 for rtr_bgpsec_generate_signature; nothing is built for it",
     "C08": "time-bounded liveness over unbounded fault histories with real sleeps: code contracts express no "
            "'eventually' and no inductive invariant within reach bounds convergence time; the safety ingredients "
            "(C05/C07 invariants, error states return to CONNECTING) are decided under those properties",
@@ -106,6 +103,26 @@ PROPS = {
         "trusted": ["third-party tommyds below the resize threshold is executed, not assumed; resize steps are not covered"],
         "assumptions": [],
     },
+    "C11": {
+        "level": "other",
+        "explanation": "Serialisation part only: align_byte_sequence / req_stream_size / get_sig_seg_size produce, for validation (the signature "
+                       "under test is skipped) and for signing, exactly the byte sequence of RFC 8205 section 4.2 -- target AS, per hop "
+                       "[SKI, length, signature,] pCount, flags, AS, then algorithm, AFI, SAFI, NLRI length, NLRI -- compared byte by byte "
+                       "with an independent serialiser, and fill a stream of req_stream_size() bytes exactly (bounded: 1 hop quick, 1..2 "
+                       "hops thorough, signatures <= 3 bytes, NLRI <= 32 bits). Hence every signed field is part of the digest. "
+                       "NOT covered: key selection (SKI and AS), the per-hop offset arithmetic of rtr_bgpsec_validate_as_path, the error "
+                       "codes, and everything behind OpenSSL (trusted).",
+        "trusted": ["OpenSSL (ECDSA, SHA-256, key parsing): not modelled, not reached by the unit"],
+        "assumptions": ["the validation loop itself is not under contract"],
+    },
+    "C12": {
+        "level": "other",
+        "explanation": "Serialisation part only (same unit as C11, align type SIGNING): the bytes hashed before signing are the RFC 8205 "
+                       "section 4.1 sequence for the path so far, and the stream is filled exactly. NOT covered: rtr_bgpsec_generate_signature's "
+                       "argument checks and error codes, key loading, ECDSA signing (OpenSSL trusted), the hop-by-hop lemma.",
+        "trusted": ["OpenSSL: not modelled, not reached by the unit"],
+        "assumptions": ["the signing function itself is not under contract"],
+    },
     "C15": {
         "level": "other",
         "explanation": "One callback step of rtr_mgr_cb (real helpers, real tommy list) from an ARBITRARY manager state over the property's own "
@@ -146,7 +163,7 @@ PROPS = {
         "level": "other",
         "explanation": "Partial. lrtr_ipv6_addr_to_str for all 2^128 addresses refuses buffers shorter than INET6_ADDRSTRLEN and never writes "
                        "beyond INET6_ADDRSTRLEN bytes (sprintf replaced by an assumed length contract). lrtr_ipv6_str_to_addr on every "
-                       "text of at most 12 (quick) / 20 (thorough) characters without '.': memory-safe and DETERMINISTIC (2-safety: two runs "
+                       "text of at most 5 (quick) / 12 (thorough) characters without '.': memory-safe and DETERMINISTIC (2-safety: two runs "
                        "with independent stack contents agree). Not decided: agreement with inet_pton, the round trip, the IPv4 pair.",
         "trusted": ["libc sprintf length contract"],
         "assumptions": ["embedded-IPv4 tails go through sscanf and are excluded"],
@@ -567,8 +584,8 @@ UNITS = [
       stubs=["rtr_init", "pfx_table_init", "spki_table_init", "pfx_table_free", "spki_table_free", "lrtr_malloc", "lrtr_free", "qsort", "pthread_rwlock_*"]),
     U(id="parse6", props=["C19"], file="units/ipstr.c", entry="h_parse6", defines=["H_ENTRY=h_parse6"], enforce=[], plain=True,
       checked_by_assertions=["lrtr_ipv6_str_to_addr"], need_classes=["assertion"],
-      kind="bounded: texts of at most 12 characters (quick) / 20 (thorough) without '.'", tier_defines={"quick": {"STRMAX": 12}, "thorough": {"STRMAX": 20}},
-      bound=22, native=None, timeout=3000, allow_undefined=True, stubs=["sscanf", "sprintf"]),
+      kind="bounded: texts of at most 5 characters (quick) / 12 (thorough) without '.'", tier_defines={"quick": {"STRMAX": 5}, "thorough": {"STRMAX": 12}},
+      bound={"quick": 9, "thorough": 14}, native=None, timeout={"quick": 1500, "thorough": 7200}, allow_undefined=True, cbmc_flags=["--sat-solver", "cadical"], stubs=["sscanf", "sprintf"]),
     U(id="format6", props=["C19"], file="units/ipstr.c", entry="h_format6", defines=["H_ENTRY=h_format6"], enforce=[], plain=True,
       checked_by_assertions=["lrtr_ipv6_addr_to_str"], need_classes=["assertion"], kind="complete",
       bound=24, native=None, timeout=1800, allow_undefined=True, stubs=["sprintf"]),
@@ -589,6 +606,10 @@ UNITS = [
       stubs=["pthread_rwlock_*"]),
     U(id="lemma_path", props=["C01", "C02"], file="units/lemma.c", entry="h_lemma_path", enforce=[], plain=True, checked_by_assertions=[],
       need_classes=["assertion"], kind="complete", native=None, allow_undefined=True),
+    U(id="bgpsec_align", props=["C11", "C12"], file="units/bgpsec_align.c", entry="h_align", enforce=[], plain=True,
+      checked_by_assertions=["align_byte_sequence", "req_stream_size", "get_sig_seg_size", "write_stream"], need_classes=["assertion"],
+      kind="bounded: 1 hop (quick) / 1..2 hops (thorough), signatures <= 3 bytes, NLRI <= 32 bits", bound=24, unwind_functions={"h_align": 130}, object_bits=11, mem_gb=40,
+      tier_defines={"quick": {"MAXHOPS": 1}, "thorough": {"MAXHOPS": 2}}, native=None, timeout={"quick": 1800, "thorough": 7200}, allow_undefined=True, stubs=["lrtr_calloc", "lrtr_malloc", "lrtr_free", "lrtr_dbg"]),
     # ------------------------------------------------------------------ C20
     U(id="c20_state_names", props=["C20"], file="units/c20_state_names.c", entry="h_c20_state",
       enforce=["rtr_state_to_str"], kind="complete", bound=70,
